@@ -528,6 +528,104 @@ theorem findComp_attached (w : World V) (hn : (AL.keys w.glyphs).Nodup) (kid : N
     refine ⟨p.1, p.2, AL.get?_of_mem_nodup hn hm, ?_⟩
     exact List.mem_of_find?_eq_some hk
 
+theorem host_set (w w1 : World V) (h : String) (g g' : GlyphS) (pred : GlyphS → Bool)
+    (hn : (AL.keys w.glyphs).Nodup) (hg : AL.get? w.glyphs h = some g)
+    (hgs : w1.glyphs = AL.set w.glyphs h g') (hp : pred g' = pred g) :
+    (w1.glyphs.find? fun p => pred p.2) = none ∧ (w.glyphs.find? fun p => pred p.2) = none ∨
+    ∃ p, (w.glyphs.find? fun p => pred p.2) = some p ∧
+      ((p.1 = h ∧ p.2 = g ∧ (w1.glyphs.find? fun p => pred p.2) = some (h, g')) ∨
+       (p.1 ≠ h ∧ (w1.glyphs.find? fun p => pred p.2) = some p)) := by
+  rw [hgs, find?_set_congr w.glyphs h g g' pred hn hg hp]
+  cases hf : w.glyphs.find? (fun p => pred p.2) with
+  | none => exact Or.inl ⟨rfl, rfl⟩
+  | some p =>
+    refine Or.inr ⟨p, rfl, ?_⟩
+    by_cases e : p.1 = h
+    · refine Or.inl ⟨e, ?_, by simp [e]⟩
+      have hm := List.mem_of_find?_eq_some hf
+      have := AL.get?_of_mem_nodup hn hm
+      rw [e, hg] at this
+      exact (Option.some.inj this).symm
+    · exact Or.inr ⟨e, by simp [e]⟩
+
+theorem findContour_set (w w1 : World V) (h : String) (g g' : GlyphS)
+    (hn : (AL.keys w.glyphs).Nodup) (hg : AL.get? w.glyphs h = some g)
+    (hgs : w1.glyphs = AL.set w.glyphs h g') (hl : w1.looseC = w.looseC) (cid : Nat)
+    (hhas : hasContour cid g' = hasContour cid g) (hin : contourIn g' cid = contourIn g cid) :
+    findContour w1 cid = findContour w cid := by
+  unfold findContour hostOfContour
+  rcases host_set w w1 h g g' (hasContour cid) hn hg hgs hhas with ⟨h1, h2⟩ | ⟨p, h2, ⟨e1, e2, h1⟩ | ⟨_, h1⟩⟩
+  · rw [h1, h2, hl]
+  · rw [h1, h2]; simp only; rw [hin, e2]
+  · rw [h1, h2]
+
+theorem findComp_set (w w1 : World V) (h : String) (g g' : GlyphS)
+    (hn : (AL.keys w.glyphs).Nodup) (hg : AL.get? w.glyphs h = some g)
+    (hgs : w1.glyphs = AL.set w.glyphs h g') (hl : w1.looseK = w.looseK) (kid : Nat)
+    (hhas : hasComp kid g' = hasComp kid g) (hin : compIn g' kid = compIn g kid) :
+    findComp w1 kid = findComp w kid := by
+  unfold findComp hostOfComp
+  rcases host_set w w1 h g g' (hasComp kid) hn hg hgs hhas with ⟨h1, h2⟩ | ⟨p, h2, ⟨e1, e2, h1⟩ | ⟨_, h1⟩⟩
+  · rw [h1, h2, hl]
+  · rw [h1, h2]; simp only; rw [hin, e2]
+  · rw [h1, h2]
+
+theorem attached_contour_set (w w1 : World V) (h : String) (g g' : GlyphS)
+    (hn : (AL.keys w.glyphs).Nodup) (hg : AL.get? w.glyphs h = some g)
+    (hgs : w1.glyphs = AL.set w.glyphs h g') (cid : Nat)
+    (hhas : hasContour cid g' = hasContour cid g) :
+    attached w1 (.contour cid) = attached w (.contour cid) := by
+  simp only [attached, hostOfContour]
+  rcases host_set w w1 h g g' (hasContour cid) hn hg hgs hhas with ⟨h1, h2⟩ | ⟨p, h2, ⟨e1, e2, h1⟩ | ⟨_, h1⟩⟩
+  · rw [h1, h2]
+  · rw [h1, h2]; rfl
+  · rw [h1, h2]
+
+theorem attached_comp_set (w w1 : World V) (h : String) (g g' : GlyphS)
+    (hn : (AL.keys w.glyphs).Nodup) (hg : AL.get? w.glyphs h = some g)
+    (hgs : w1.glyphs = AL.set w.glyphs h g') (kid : Nat)
+    (hhas : hasComp kid g' = hasComp kid g) :
+    attached w1 (.comp kid) = attached w (.comp kid) := by
+  simp only [attached, hostOfComp]
+  rcases host_set w w1 h g g' (hasComp kid) hn hg hgs hhas with ⟨h1, h2⟩ | ⟨p, h2, ⟨e1, e2, h1⟩ | ⟨_, h1⟩⟩
+  · rw [h1, h2]
+  · rw [h1, h2]; rfl
+  · rw [h1, h2]
+
+theorem attached_glyph_set (w w1 : World V) (h : String) (g g' : GlyphS)
+    (hg : AL.get? w.glyphs h = some g) (hgs : w1.glyphs = AL.set w.glyphs h g') (x : String) :
+    attached w1 (.glyph x) = attached w (.glyph x) := by
+  simp only [attached]
+  rw [hgs, AL.contains_set]
+  by_cases e : h = x
+  · subst e; simp [AL.contains, hg]
+  · simp [e]
+
+theorem viewOf_contour_of_find (T : Tables) {w w1 : World V} {cid : Nat}
+    (h : findContour w1 cid = findContour w cid) (nm : String) :
+    viewOf T w1 (.contour cid) nm = viewOf T w (.contour cid) nm := by
+  simp only [viewOf, h]
+
+/-- the replaced glyph itself, when its contours and components are kept: a built-in factory sees no change -/
+theorem view_glyph_self_builtin (T : Tables) (w w1 : World V) (h : String) (g g' : GlyphS)
+    (hg : AL.get? w.glyphs h = some g) (hgs : w1.glyphs = AL.set w.glyphs h g') (hf : w1.fuel = w.fuel)
+    (hc : g'.contours = g.contours) (hk : g'.comps = g.comps) (nm : String)
+    (hbi : isBuiltin T "Glyph" nm = true) :
+    viewOf T w1 (.glyph h) nm = viewOf T w (.glyph h) nm := by
+  simp only [viewOf, hgs, hf, AL.get?_set_self, hg, Option.map_some, Option.getD_some]
+  unfold glyphView
+  simp only [hbi, if_true]
+  unfold glyphOutline bodyWith
+  rw [hc, hk]
+  congr 3
+  apply flatMap_congr'
+  intro k _
+  symm
+  exact compHead_set _ _ _ _ _ hg k (Or.inl ⟨hc, hk⟩)
+
+theorem SameStruct.symm {w w' : World V} (h : SameStruct w w') : SameStruct w' w :=
+  ⟨h.glyphs.symm, h.looseC.symm, h.looseK.symm, h.fuel.symm, h.groupsVer.symm, h.regs.symm⟩
+
 end ViewFrame
 
 /-! ### coverage facts -/
